@@ -56,6 +56,7 @@ class Registry:
         self.user_classes = {}      # synthetic user classes: name -> base
         self.spec_modules = []
         self.scans = {}
+        self.namespaces = {}        # class -> {attribute name: type} for instance-__dict__ modelled classes
         self.frame_tags = {}        # field name / container type -> properties that own its frame obligations
 
     def contract(self, key, **kw):
